@@ -46,7 +46,13 @@ def run(ctx):
     mods = ds.collect_modules(ctx, rng, 2 if ctx.tier == "quick" else 12)
     wbad, ndiag, ndep = [], 0, 0
     try:
+        from . import texture
+        variants = []
         for d, _ in mods:
+            variants.append(d)
+            # the same module as template-generated code looks: an empty first line in every file
+            variants.append(texture.make(d, "blank", d + "_tx"))
+        for d in variants:
             for full in ("false", "true"):
                 r, err = wt.analyze(d, flags={"print-full-file-path": full})
                 if r is None:
@@ -57,8 +63,11 @@ def run(ctx):
                 for b in ds.coherence_oracle(d, r["diags"] or [], full == "true"):
                     wbad.append("print-full-file-path=%s, module %s: %s" % (full, d, b))
     finally:
+        import shutil
+        for d, _ in mods:
+            shutil.rmtree(d + "_tx", ignore_errors=True)
         ds.cleanup(mods)
-    ctx.obligation("whole tool: %d diagnostics of %d modules (both path-printing modes): valid position on an existing line, >= 1 flow step, every file:line:col resolves, last step = reported position; %d of them are located in a dependency's file" % (ndiag, len(mods), ndep), ndiag > 0 and ndep > 0 and not wbad)
+    ctx.obligation("whole tool: %d diagnostics of %d modules, each also with an empty first line in every file (both path-printing modes): valid position on an existing line, >= 1 flow step, every file:line:col resolves, last step = reported position; %d of them are located in a dependency's file" % (ndiag, len(mods), ndep), ndiag > 0 and ndep > 0 and not wbad)
     ctx.coverage.update({"evaluations": len(res["cases"]) + ndiag, "distinct_nontrivial": len(set(c.line() for c in res["cases"])),
                          "rule": "synthetic conflict sets (positions in files the file set does not contain, some beyond line 65536) and real diagnostics of generated/hand-written modules; distinct by case line"})
     ctx.assumptions.append("partial: the in-process checker driver only; the go vet driver drops findings located in a dependency's file (finding F12, recorded under C03); the file system is not modelled")
